@@ -64,6 +64,7 @@ type Case struct {
 	Active  []ActiveT         `json:"active"`
 	Explore map[uint64]*TStat `json:"explore"` // nil entry: explorer does not know the target
 	Cycles  [][]Replica       `json:"cycles"`
+	Reps    int               `json:"reps,omitempty"` // repetitions wanted by a directed case whose interesting outcome is a rare map order
 }
 
 func (c *Case) isActive(h uint64) bool {
